@@ -754,7 +754,7 @@ class BuilderSim:
                 return t.val.None_(*rows[1])
             return t.val.Sum(k, ty, vs)
         if ty == t.FLOAT_T:
-            return t.FloatVal(ch.pick([0.0, 1.5, -2.25, 1e300], "float"))
+            return t.FloatVal(ch.pick([0.0, 1.5, -2.25, 1e300, float("inf"), float("nan")], "float"))
         if ty == t.STRING_T:
             return t.StringVal(ch.pick(["", "a", "né☃", 'q"\\'], "string"))
         if isinstance(ty, t.tys.ExtType) and ty.type_def.name == "array":
@@ -957,7 +957,9 @@ class BuilderSim:
             w = ch.pick(a.live(novar=False), "noop-arg")
             if w.lin:
                 w.used = True
-            a.add_op(t.ops.Noop(), [w], [w.ty], md, "Noop")
+            outs = a.add_op(t.ops.Noop(), [w], [w.ty], md, "Noop")
+            if w.var:
+                outs[0].var = True  # a reserved / variable-typed wire stays reserved through the identity
         elif op == "MakeTuple":
             n = 1 + ch.draw(min(3, len(pool_live)), "mt-n")
             ws = []
@@ -1195,7 +1197,17 @@ class BuilderSim:
             return
         args = [a.find(x) for x in inst.input]
         kw = {"instantiation": inst, "type_args": targs} if sig.params else {}
-        n = a.call("call", a.b.call, f["node"], *[w.wire for w in args], **kw)
+        local_tail = 0
+        if len(args) >= 2 and ch.coin(1, 5, "call-then-link"):
+            # pass only a prefix of the arguments to call() and link the rest afterwards through the graph API
+            while local_tail < len(args) - 1 and args[len(args) - 1 - local_tail].owner is a:
+                local_tail += 1
+            local_tail = ch.draw(local_tail + 1, "n-linked-later")
+        k = len(args) - local_tail
+        n = a.call("call", a.b.call, f["node"], *[w.wire for w in args[:k]], **kw)
+        for i in range(k, len(args)):
+            a.call("add_link", self.hugr.add_link, args[i].wire.out_port(), n.inp(i))
+            self.ctx.probe("call_argument_linked_later")
         a.nodes.append(n)
         a.dep_local(args, n.idx)
         self.handle(n, len(inst.output), "call")
